@@ -8,6 +8,7 @@ import (
 	"fmt"
 	"io"
 	"strings"
+	"sync/atomic"
 	"time"
 
 	"github.com/refraction-networking/uquic/internal/flowcontrol"
@@ -208,14 +209,22 @@ func (in *c03RStreamInst) classify(call string, n int, err error) *explore.Fail 
 	return nil
 }
 
-// c03Call runs f in its own goroutine; a call that the model says cannot block gets 30 s.
+var c03Blocked atomic.Int32
+
+// c03Call runs f in its own goroutine; a call that the model says cannot block gets 30 s
+// (2 s once a first call has been found blocked in this process: the verdict exists already).
 func c03Call(f func()) bool {
 	done := make(chan struct{})
 	go func() { f(); close(done) }()
+	d := 30 * time.Second
+	if c03Blocked.Load() > 0 {
+		d = 2 * time.Second
+	}
 	select {
 	case <-done:
 		return true
-	case <-time.After(30 * time.Second):
+	case <-time.After(d):
+		c03Blocked.Add(1)
 		return false
 	}
 }
